@@ -508,6 +508,9 @@ def render_crate(types, methods):
         L.append(e.decl())
     for st in types["structs"]:
         L.append(st.decl())
+    # the method's own type spelled `Self` inside an Option inside a Result arm (the macro converts by looking at the spelling)
+    L.append("    impl St {\n        #[diplomat::attr(not(supports = option), disable)]\n"
+             "        pub fn opt_self(self, sel: u8) -> Result<Option<Self>, ()> { match sel { 0 => Ok(Some(self)), 1 => Ok(None), _ => Err(()) } }\n    }")
     for o in types["owners"]:
         L.append("%s    #[diplomat::opaque]\n    pub struct %s;" % (types.get("owner_attrs", {}).get(o, ""), o))
         L.append("    impl %s {" % o)
@@ -737,6 +740,9 @@ def render_c_driver(types, methods, headers):
     cases = expand_cases(methods)
     for (m, j, c) in cases:
         L.append(c_case(m, j, c))
+    L.append("static void self_block(void) { for (uint8_t sel = 0; sel < 3; sel++) { St s = { .a = 7, .b = 0x01020304u }; St_opt_self_result r = St_opt_self(s, sel);"
+             ' if (r.is_ok) { if (r.ok.is_ok) printf("XS %u ok(some(%u,%u))\\n", (unsigned)sel, (unsigned)r.ok.ok.a, (unsigned)r.ok.ok.b); else printf("XS %u ok(none)\\n", (unsigned)sel); }'
+             ' else printf("XS %u err\\n", (unsigned)sel); } }')
     L.append("extern size_t verif_ret_size(uint32_t i);")
     L.append("int main(int argc, char** argv) {")
     L.append("    (void)argc; (void)argv;")
@@ -745,6 +751,7 @@ def render_c_driver(types, methods, headers):
             L.append('    printf("SZ %d %%llu %%llu\\n", (unsigned long long)sizeof(%s_%s()), (unsigned long long)verif_ret_size(%d));' % (m["i"], m["owner"], m["name"], m["i"]))
     for (m, j, c) in cases:
         L.append("    c_%d_%d();" % (m["i"], j))
+    L.append("    self_block();")
     L.append('    printf("DONE\\n");\n    return 0;\n}')
     return "\n".join(L) + "\n", cases
 
@@ -920,6 +927,10 @@ def ar_expected():
 def it_expected():
     """every way of walking a 4-element iterable through the C++ adapter must see Rust's sequence 10, 20, 30, 40"""
     return ["IT rangefor=10,20,30,40,", "IT skipfirst=20,30,40,", "IT incr-then-deref=20", "IT incr2-then-deref=30", "IT look-then-step=10,20", "IT empty=0", "IT one=10,"]
+
+
+def self_expected():
+    return ["XS 0 ok(some(7,16909060))", "XS 1 ok(none)", "XS 2 err"]
 
 
 def cmp_expected():
